@@ -82,8 +82,39 @@ fn switches(s: &[Step]) -> usize {
 pub static EXTRA: std::sync::Mutex<std::collections::BTreeMap<String, u64>> = std::sync::Mutex::new(std::collections::BTreeMap::new());
 /// a scenario-level history (call / return records) to be written to the trace file instead of the point trace
 pub static HISTORY: std::sync::Mutex<Vec<serde_json::Value>> = std::sync::Mutex::new(Vec::new());
+/// cheap in-memory debug log of the current execution (dumped into violation details on demand)
+pub static DBG: std::sync::Mutex<Vec<String>> = std::sync::Mutex::new(Vec::new());
+pub fn dbg(s: String) {
+    let mut g = DBG.lock().unwrap();
+    if g.len() < 400 {
+        g.push(s);
+    }
+}
 pub fn bump(key: &str) {
     *EXTRA.lock().unwrap().entry(key.to_string()).or_insert(0) += 1;
+}
+
+/// real-time experiment (no controller): does a timer on an interval list that has been emptied fire on time?
+fn rt_timer() -> i32 {
+    use std::time::{Duration, Instant};
+    may::config().set_workers(4);
+    let t = Instant::now();
+    let a = may::go!(move || { may::coroutine::sleep(Duration::from_millis(20)); });
+    let b = may::go!(move || { may::coroutine::park_timeout(Duration::from_millis(20)); });
+    let d = may::go!(move || { may::coroutine::sleep(Duration::from_millis(200)); });
+    a.join().unwrap();
+    b.join().unwrap();
+    std::thread::sleep(Duration::from_millis(10));
+    let c = may::go!(move || {
+        let t0 = Instant::now();
+        let blk = may::sync::Blocker::current();
+        let r = blk.park(Some(Duration::from_millis(20)));
+        println!("park(20ms) on the emptied 20ms list returned {r:?} after {:?}", t0.elapsed());
+    });
+    c.join().unwrap();
+    d.join().unwrap();
+    println!("total {:?}", t.elapsed());
+    0
 }
 
 pub fn main(args: &[String]) -> i32 {
@@ -92,6 +123,9 @@ pub fn main(args: &[String]) -> i32 {
         return 2;
     }
     let scen_name = args[1].as_str();
+    if scen_name == "rt_timer" {
+        return rt_timer();
+    }
     let mode = args[2].as_str();
     let file = args[3].as_str();
     let Some(builder) = scen::lookup(scen_name) else {
